@@ -133,6 +133,9 @@ func runChild(c *Case) *Result {
 	if r := readResult(spec.Out); r != nil {
 		return r
 	}
+	if r := processDied(stderr.String()); r != nil {
+		return r
+	}
 	return &Result{Verdict: "infra", Msg: fmt.Sprintf("child ended without a result (%v); stderr: %s", werr, tailStr(stderr.String(), 1500))}
 }
 
@@ -280,4 +283,44 @@ func summary(r *Result) string { return fmt.Sprintf("%s/%dms", r.Verdict, r.Conv
 // convergence bound + stability delay + slack for a loaded machine.
 func capFor(c *Case) time.Duration {
 	return bound(c) + time.Duration(len(c.Phases))*5*time.Second + 90*time.Second + 60*time.Second
+}
+
+// processDied turns a child that was killed by the Go runtime (fatal error or
+// unrecovered panic) inside repository code into a violation: the process that
+// hosts the primary (and the replicas) died. The goroutine that crashed is the
+// first one of the dump; it must have a repository frame, otherwise the death
+// is the harness's own problem (infrastructure).
+func processDied(stderr string) *Result {
+	i := strings.Index(stderr, "fatal error: ")
+	if j := strings.Index(stderr, "panic: "); j >= 0 && (i < 0 || j < i) {
+		i = j
+	}
+	if i < 0 {
+		return nil
+	}
+	rest := stderr[i:]
+	first := rest
+	if k := strings.IndexByte(first, '\n'); k >= 0 {
+		first = first[:k]
+	}
+	// the crashing goroutine: from the first "goroutine " header to the next blank line
+	g := rest
+	if k := strings.Index(g, "\ngoroutine "); k >= 0 {
+		g = g[k+1:]
+	}
+	if k := strings.Index(g, "\n\n"); k >= 0 {
+		g = g[:k]
+	}
+	if !strings.Contains(g, "github.com/KevoDB/kevo/") {
+		return nil
+	}
+	who := "primary"
+	if strings.Contains(g, "replication.(*Replica)") {
+		who = "replica"
+	}
+	if len(rest) > 6000 {
+		rest = rest[:6000]
+	}
+	return &Result{Verdict: "violation", Sig: who + "-process-died:" + clip(first, 120),
+		Msg: "the process hosting the primary and its replicas was killed by the Go runtime:\n" + rest}
 }
